@@ -41,6 +41,10 @@ def bad_item(kind, atom_rank):
     atom = ATOMS[atom_rank]
     if kind == 'badatom':
         return np.zeros((1,) + (atom[:-1] + (atom[-1] + 1,) if atom else (3,)), dtype=DT)
+    if kind == 'badatom0':
+        return np.zeros((0,) + (atom[:-1] + (atom[-1] + 1,) if atom else (3,)), dtype=DT)
+    if kind == 'badzero':
+        return np.zeros((2,) + atom[:-1] + (0,), dtype=DT)
     if kind == 'badrank':
         return np.zeros((1,) + atom + (1,), dtype=DT)
     if kind == 'unconv':
@@ -162,13 +166,13 @@ def build_cases(tier):
         for ar in (0, 1, 2):
             for n in (0, 1, 2, 3):
                 for pos in range(0, n + 1):
-                    for kind in ('iter-raises', 'iter-valueerror', 'badatom', 'badrank', 'unconv'):
+                    for kind in ('iter-raises', 'iter-valueerror', 'badatom', 'badrank', 'unconv', 'badatom0', 'badzero'):
                         for entry in ('iterappend-list', 'iterappend-gen'):
                             if q and entry == 'iterappend-gen' and kind not in ('iter-raises', 'badatom'):
                                 continue
                             cases.append({'start': start, 'atom_rank': ar, 'entry': entry, 'nitems': n, 'kind': kind,
                                           'position': pos})
-            for kind in ('badatom', 'badrank', 'unconv'):
+            for kind in ('badatom', 'badrank', 'unconv', 'badatom0', 'badzero'):
                 cases.append({'start': start, 'atom_rank': ar, 'entry': 'append', 'nitems': 0, 'kind': kind,
                               'position': 0})
     # index overflow with small index types
@@ -214,7 +218,7 @@ def run(tier):
         'C10', tier, 'dv.checks.c10:evaluate', cases, chunk=8, level='fault_enumeration', engine='faults',
         rule=('one deviation per execution: start {no subarrays, 3 subarrays of 4 KiB, 700 zero-length subarrays, 100 values with '
               'an 8-bit index type} x atom rank 0..2 x 0..3 items (zero-length ones included) x failure position 0..n x kind '
-              '{iterable raises, wrong atom, wrong rank, unconvertible item, index overflow, write failure on the values file, '
+              '{iterable raises, wrong atom (also zero-length items of a wrong atom and atoms with a zero extent), wrong rank, unconvertible item, index overflow, write failure on the values file, '
               'write failure on the indices file (RLIMIT_FSIZE at enumerated byte offsets)} x entry {append, iterappend(list), '
               'iterappend(generator)}; oracle: raises, RaggedArray opens, independent ragged decoder accepts the directory, '
               'subarrays == original + completed items, live == fresh'),
